@@ -17,7 +17,8 @@ From FFS Require Import Base.Res Base.Bytes Abi.Types AbiType.Syntax AbiType.Spe
   AbiType.ProofsArr AbiType.ProofsDims AbiType.ProofsNormal AbiType.ModelSig AbiType.ProofsSig
   AbiType.ModelCache AbiType.ProofsCache
   AbiType.ModelCacheEntry AbiType.ProofsCacheEntry
-  AbiType.ProofsReferee AbiType.ModelNil AbiType.ProofsNil AbiType.ModelIdx AbiType.ProofsIdx.
+  AbiType.ProofsReferee AbiType.ModelNil AbiType.ProofsNil AbiType.ModelIdx AbiType.ProofsIdx
+  AbiType.ProofsDimsAll AbiType.ModelRune AbiType.ProofsRune AbiType.ProofsRuneEnc AbiType.RunRune.
 Import ListNotations.
 
 (* 1. Validation never panics (and the model never runs out of fuel): any bytes as type text, any
@@ -540,3 +541,110 @@ Example C13_nonvacuous_entry_edit :
 Proof.
   eexists. split; [vm_compute; reflexivity|]. cbv zeta. repeat split; vm_compute; reflexivity.
 Qed.
+
+(* ====================================================================================================
+   Wave 6 (design/C13.md "Wave 6").
+   ==================================================================================================== *)
+
+(* 17. Array dimensions WITHOUT the guard of 7 / 7c ("the body holds no ']'").  For ANY accepted element text s
+      and ANY bytes r after an appended '[': the extended text is accepted exactly when "[" ++ r is the
+      rendering of a list of well-formed dimensions ([dim] = option N: None is "[]", Some k is "[k]" in canonical
+      decimal; [dim_ok]: k < 2^32), and the tree is the element's tree wrapped once per dimension, innermost
+      first.  7 is the case of a one-element list. *)
+Theorem C13_dimensions_exact :
+  forall (s : bytes) (comps : list param) (tc : tcomp) (r : bytes) (tc' : tcomp),
+    Validate (Param s comps) = Ok tc ->
+    (Validate (Param (s ++ ch_lbrack :: r) comps) = Ok tc' <->
+     exists ds, forallb dim_ok ds = true /\ ch_lbrack :: r = render_dims ds /\ tc' = wrap_tc tc ds).
+Proof. exact dimensions_exact. Qed.
+Print Assumptions C13_dimensions_exact.
+
+(* 17b. Whatever follows a '[' never rescues a refused text before it (7c without its guard): an accepted text
+      that continues with '[' has an accepted text before that '['; a refused one stays refused, with an
+      error (no panic, not out of fuel). *)
+Theorem C13_dimensions_need_element :
+  (forall s comps r tc', Validate (Param (s ++ ch_lbrack :: r) comps) = Ok tc' ->
+     exists tc, Validate (Param s comps) = Ok tc) /\
+  (forall s comps r, (exists e, Validate (Param s comps) = Err e) ->
+     exists e, Validate (Param (s ++ ch_lbrack :: r) comps) = Err e /\ e <> EOutOfFuel).
+Proof. split; [exact dimensions_need_element|exact refused_stays_refused]. Qed.
+Print Assumptions C13_dimensions_need_element.
+
+(* 17c. Over dimension LISTS the answer is a function of the list: after an accepted text a rendered non-empty
+      list is accepted (with the wrapped tree) when every dimension is below 2^32 and refused with an error
+      when one of them, at any position, is not; and the rendering determines the list. *)
+Theorem C13_dimension_lists :
+  (forall s comps tc ds, Validate (Param s comps) = Ok tc -> forallb dim_ok ds = true ->
+     Validate (Param (s ++ render_dims ds) comps) = Ok (wrap_tc tc ds)) /\
+  (forall s comps tc ds, Validate (Param s comps) = Ok tc -> ds <> [] -> forallb dim_ok ds = false ->
+     exists e, Validate (Param (s ++ render_dims ds) comps) = Err e /\ e <> EOutOfFuel) /\
+  (forall ds ds', render_dims ds = render_dims ds' -> ds = ds').
+Proof. split; [exact dimensions_intro|]. split; [exact dimensions_bad_refused|exact render_dims_inj]. Qed.
+Print Assumptions C13_dimension_lists.
+
+(* 18. The base-name scan as the Go source writes it -- over the RUNES of the type text, each accepted rune
+      written back with WriteRune (AbiType/ModelRune.v: [decode_rune] transcribes utf8.DecodeRuneInString, the
+      semantics of the range statement; [encode_rune] utf8.AppendRune; [etStr] the loop with fuel len(s)) --
+      computes, for EVERY byte string (valid UTF-8 or not), the byte scan [take_lower] that the parser model
+      uses; it never runs out of fuel.  This was a declared assumption before wave 6. *)
+Theorem C13_rune_scan_is_byte_scan :
+  (forall s : bytes, etStr s = Ok (take_lower s)) /\
+  (forall f s, (length s <= f)%nat -> etStr_runes f s = Ok (take_lower s)) /\
+  (forall b0 r, (128 <= b2n b0)%N ->
+     let rn := fst (decode_rune (b0 :: r)) in ((97 <=? rn) && (rn <=? 122))%N = false).
+Proof. split; [exact etStr_is_take_lower|]. split; [exact etStr_runes_eq|exact nonascii_never_lower]. Qed.
+Print Assumptions C13_rune_scan_is_byte_scan.
+
+(* 18b. The range statement over any byte string terminates within the fuel len(s), consumes exactly the
+      string, advances 1..4 bytes at every step and yields Unicode scalar values only (no surrogates, nothing
+      above U+10FFFF; overlong forms decode to RuneError).  The (rune, width) sequence is what the harness
+      compares with the Go runtime on UTF-8 boundary strings (code 7). *)
+Theorem C13_range_loop_total :
+  forall s : bytes,
+    exists l, runes s = Ok l /\ total_width l = length s /\
+              Forall (fun rw => (1 <= snd rw <= 4)%nat /\ scalar_value (fst rw) = true) l.
+Proof. exact runes_total. Qed.
+Print Assumptions C13_range_loop_total.
+
+(* 18c. The two transcriptions agree with each other: whatever the decoder accepts (every answer but
+      (RuneError, 1)) is written back by WriteRune as the very bytes that were read. *)
+Theorem C13_decode_encode_roundtrip :
+  forall b0 r rn w, decode_rune (b0 :: r) = (rn, w) -> (rn, w) <> (rune_error, 1%nat) ->
+    encode_rune rn = firstn w (b0 :: r).
+Proof. exact decode_encode_roundtrip. Qed.
+Print Assumptions C13_decode_encode_roundtrip.
+
+(* ---------- non-vacuity of 17 - 18 ---------- *)
+
+(* several dimensions at once after a tuple array with alias spellings inside: a body with ']' in it (outside
+   the guard of 7), accepted; the same with one dimension at the limit, refused; junk after a ']' refused *)
+Example C13_nonvacuous_dimensions :
+  exists tc, Validate ex_param = Ok tc /\
+    T "[2][][4294967295]" = render_dims [Some 2; None; Some 4294967295]%N /\
+    ~ no_byte ch_rbrack (T "2][][4294967295") /\
+    Validate (Param (p_type ex_param ++ T "[2][][4294967295]") (p_comps ex_param)) =
+      Ok (CFixedArr (CDynArr (CFixedArr tc 2)) 4294967295) /\
+    wrap_tc tc [Some 2; None; Some 4294967295]%N = CFixedArr (CDynArr (CFixedArr tc 2)) 4294967295 /\
+    is_err (Validate (Param (p_type ex_param ++ T "[2][4294967296][]") (p_comps ex_param))) = true /\
+    is_err (Validate (Param (p_type ex_param ++ T "[2]x[3]") (p_comps ex_param))) = true /\
+    is_err (Validate (Param (T "uint7[2][3]") [])) = true.
+Proof.
+  eexists. split; [vm_compute; reflexivity|]. split; [vm_compute; reflexivity|]. split.
+  { intros H. do 1 apply Forall_inv_tail in H. apply Forall_inv in H. vm_compute in H. discriminate. }
+  repeat split; vm_compute; reflexivity.
+Qed.
+
+(* runes: "é" (C3 A9) after a base name stops the scan; an overlong 'a' (C1 A1), a surrogate (ED A0 80) and a
+   truncated sequence decode to RuneError with width 1; U+10FFFF is the last scalar value *)
+Example C13_nonvacuous_runes :
+  etStr (T "uint" ++ [xc3; xa9] ++ T "a") = Ok (T "uint") /\
+  runes (T "a" ++ [xc3; xa9]) = Ok [(97, 1%nat); (233, 2%nat)]%N /\
+  runes [xc1; xa1] = Ok [(65533, 1%nat); (65533, 1%nat)]%N /\
+  runes [xed; xa0; x80] = Ok [(65533, 1%nat); (65533, 1%nat); (65533, 1%nat)]%N /\
+  runes [xe2; x82] = Ok [(65533, 1%nat); (65533, 1%nat)]%N /\
+  runes [xf4; x8f; xbf; xbf] = Ok [(1114111, 4%nat)]%N /\
+  runes [xf4; x90; x80; x80] = Ok [(65533, 1%nat); (65533, 1%nat); (65533, 1%nat); (65533, 1%nat)]%N /\
+  decode_rune [xe2; x82; xac] = (8364, 3%nat)%N /\ encode_rune 8364 = [xe2; x82; xac] /\
+  check_rcase (CRunes (Base.Lit.BLit "617a7b") [(97, 1); (122, 1); (123, 1)]%N (Base.Lit.BLit "617a")) = 0%N /\
+  check_rcase (CRunes (Base.Lit.BLit "617a7b") [(97, 1); (122, 1); (123, 2)]%N (Base.Lit.BLit "617a")) = 7%N.
+Proof. repeat split; vm_compute; reflexivity. Qed.
